@@ -976,6 +976,16 @@ func (e *Sim) actionFrom(w *World, r *rand.Rand, ns, name string, sh shape, edit
 				w.tracef("user: hand-made duplicate %s of %s on %s", dup.Name, src.Name, kit.NodeOfPod(src))
 			}
 		}},
+		{0.12, func() {
+			// the controller process restarts between two reconciles: every reconciler instance is rebuilt, whatever the
+			// old ones kept in memory (the Failed-pod deletion back-off, anything a change adds) is gone
+			if w.nestDepth > 0 {
+				return
+			}
+			w.Ctl.Rebuild()
+			w.Ctx.Count("sim.controller-restarts")
+			w.tracef("*** controller process restarted between reconciles (in-memory state lost)")
+		}},
 	}
 	acts = acts[from:]
 	total := 0.0
